@@ -200,8 +200,11 @@ def gen_scalar_block(tr):
     if not (isinstance(s0, ast.If) and ast.unparse(s0.test) == 'self.data is None' and len(s0.body) == 1
             and isinstance(s0.body[0], ast.Return) and s0.body[0].value is None and not s0.orelse):
         raise Untranslatable('_calculate_stats: expected to start with `if self.data is None: return`')
+    if not (len(body) > 1 and isinstance(body[1], ast.Expr) and ast.unparse(body[1].value) == 'self._clear_stats()'):
+        raise Untranslatable('_calculate_stats: expected `self._clear_stats()` right after `if self.data is None: return` '
+                             '(derived statistics of an earlier processing must be cleared before they are recomputed)')
     stmts = []
-    for s in body[1:]:
+    for s in body[2:]:
         if isinstance(s, ast.If) and ast.unparse(s.test) == 'self.data.H is not None':
             break
         stmts.append(s)
@@ -238,6 +241,46 @@ def gen_scalar_block(tr):
     rt = ' * '.join(types[t] for t in targets)
     return (f'(* from {RESULTS}:{fd.lineno} bioResults._calculate_stats (scalar block) *)\n'
             f'Definition calculate_stats_scalars {ps} : ({rt}) :=\n{code}.\n')
+
+
+def gen_clear_stats(tr):
+    """`_clear_stats`: which derived attributes are reset to None / deleted.  Exact expected shape:
+         for b in self.data.betas: <chained assignments b.X = b.Y = ... = None>
+         self.data.<attr> = None ...
+         for a in (<string constants>): if hasattr(self.data, a): delattr(self.data, a)"""
+    fd = tr.find('bioResults._clear_stats')
+    if [a.arg for a in fd.args.args] != ['self']:
+        raise Untranslatable('_clear_stats: signature changed')
+    attrs = []
+    for st in [x for x in fd.body if not tr.ignorable(x)]:
+        if (isinstance(st, ast.For) and isinstance(st.target, ast.Name) and ast.unparse(st.iter) == 'self.data.betas'
+                and not st.orelse):
+            bv = st.target.id
+            for a in st.body:
+                if not (isinstance(a, ast.Assign) and isinstance(a.value, ast.Constant) and a.value.value is None):
+                    tr.err(a, '_clear_stats: only `b.x = ... = None` expected in the loop over the betas')
+                for t in a.targets:
+                    if not (isinstance(t, ast.Attribute) and isinstance(t.value, ast.Name) and t.value.id == bv
+                            and t.attr in BETA_STATE):
+                        tr.err(a, '_clear_stats: unexpected target in the loop over the betas')
+                    attrs.append(f'A_beta F_{t.attr}')
+        elif (isinstance(st, ast.Assign) and isinstance(st.value, ast.Constant) and st.value.value is None
+              and all(isinstance(t, ast.Attribute) and ast.unparse(t.value) == 'self.data' for t in st.targets)):
+            for t in st.targets:
+                attrs.append(f'A_data "{t.attr}"%string')
+        elif (isinstance(st, ast.For) and isinstance(st.target, ast.Name) and isinstance(st.iter, ast.Tuple)
+              and all(isinstance(e, ast.Constant) and isinstance(e.value, str) and e.value.isidentifier() for e in st.iter.elts)
+              and not st.orelse and len(st.body) == 1 and isinstance(st.body[0], ast.If) and not st.body[0].orelse
+              and ast.unparse(st.body[0].test) == f'hasattr(self.data, {st.target.id})'
+              and len(st.body[0].body) == 1 and isinstance(st.body[0].body[0], ast.Expr)
+              and ast.unparse(st.body[0].body[0].value) == f'delattr(self.data, {st.target.id})'):
+            for e in st.iter.elts:
+                attrs.append(f'A_data "{e.value}"%string')
+        else:
+            tr.err(st, '_clear_stats: unsupported statement')
+    return (f'(* from {RESULTS}:{fd.lineno} bioResults._clear_stats: attributes reset to None or deleted; it is the first\n'
+            f'   statement of _calculate_stats after the `data is None` test (checked by the extractor) *)\n'
+            'Definition clear_stats_attrs : list attr :=\n  [' + ';\n   '.join(attrs) + '].\n')
 
 
 def gen_matrix_exprs(tr):
@@ -374,6 +417,7 @@ def gen_stats_text():
                            coqname='calculate_test', pre_env={'self.data.betaValues': 'vector'}))
     out.append('End Results.\n')
     out.append(gen_scalar_block(tr))
+    out.append(gen_clear_stats(tr))
     out.append(gen_family_wiring(tr))
     out.append('Section Mat.\nVariable n : nat.\nVariable pinv : nmat -> nmat.\n')
     out.append(gen_matrix_exprs(tr))
@@ -708,7 +752,7 @@ def check_any(c, o, groups=None):
         for m in ms:
             # figures of a matrix the raw outcome NO LONGER holds (they were stored in the raw object by an earlier
             # report and are never cleared): one witness class of its own
-            if m.expected is None and m.group in ('family', 'pvalue', 'bootcov', 'pairwise'):
+            if m.expected is None and m.group in ('family', 'pvalue', 'bootcov', 'pairwise', 'varcovar', 'sandwich', 'correlation'):
                 boot_q = m.quantity.startswith('bootstrap_')
                 if boot_q and b_removed:
                     m.group, m.quantity = 'stale', f'after-bootstrap-removed[{m.quantity}]'
@@ -924,8 +968,23 @@ def check_case(c, out, groups=None):
                             scale = sum((abs(X[k][i]) + abs(mean[i])) * (abs(X[k][j]) + abs(mean[j])) for k in range(R)) / (R - 1)
                             cmp('bootcov', f'bootstrap_varCovar[{i},{j}]', Vb[i][j], cov, rel=Fr(0),
                                 abs_=TAU * scale + Fr(1, 10 ** 300), note='sample covariance, ddof = 1')
-        elif M.get('bootstrap_varCovar') is not None and on('bootcov'):
-            bad('bootcov', 'bootstrap_varCovar', None, M.get('bootstrap_varCovar'), 'no bootstrap sample was given')
+    # a matrix of a family the raw outcome does not hold must not be reported (fresh RawResults: attribute absent)
+    absent = []
+    if not have_H:
+        absent += [('varcovar', 'varCovar'), ('correlation', 'correlation'), ('sandwich', 'robust_varCovar'),
+                   ('correlation', 'robust_correlation')]
+    if not have_boot:
+        absent += [('bootcov', 'bootstrap_varCovar'), ('correlation', 'bootstrap_correlation')]
+    for g_, k_ in absent:
+        if on(g_):
+            cnt['compared'] += 1
+            if M.get(k_) is not None:
+                bad(g_, k_, None, M.get(k_) if isinstance(M.get(k_), dict) else [r_[:3] for r_ in M.get(k_)[:3]],
+                    'no matrix for this family' if k_[:4] != 'boot' else 'no bootstrap sample was given')
+    if not have_boot and on('tables') and 'bootvar' in out:
+        cnt['compared'] += 1
+        if out['bootvar'] is not None:
+            bad('bootcov', 'bootstrap_get_bootstrap_var_covar', None, out['bootvar'], 'no bootstrap sample was given')
 
     # ---------------------------------------------------------------- the three families
     FAMS = [('', 'classical'), ('robust_', 'robust'), ('bootstrap_', 'bootstrap')]
@@ -1513,6 +1572,9 @@ LEMMA_GROUPS = [
     ('lr_test', ['lr']), ('results_lr', ['lr']), ('is_bound_active', ['bounds']),
     ('T08a', ['scalars']), ('T08b', ['family', 'pvalue']), ('T08c', ['pairwise']), ('T08d', ['sandwich', 'varcovar', 'pairwise']),
     ('T08e', ['pvalue']), ('T08f', ['compile']), ('T08g', ['lr']), ('T08h', ['bounds']),
+    ('clear', ['family', 'pvalue', 'pairwise', 'bootcov', 'correlation', 'varcovar', 'sandwich']),
+    ('process', ['family', 'pvalue', 'pairwise', 'bootcov', 'correlation', 'varcovar', 'sandwich']),
+    ('T08i', ['family', 'pvalue', 'pairwise', 'bootcov', 'correlation', 'varcovar', 'sandwich']),
 ]
 FOCUS_OF = {'scalars': 'scalars', 'family': 'bootstrap', 'pvalue': 'bootstrap', 'pairwise': 'pairwise', 'sandwich': 'sandwich',
             'varcovar': 'varcovar', 'compile': 'family', 'lr': 'lr', 'bounds': 'bounds'}
